@@ -30,16 +30,105 @@ class _NoiseLifter(Lifter):
         return super()._call(n, env, fn, depth, owner)
 
 
-def _target_block(t):
-    """'EPS' | 'SIGMA' | None for a store into `sensitivities[...]`."""
+def _base(t):
+    while isinstance(t, ast.Subscript):
+        t = t.value
+    return t.id if isinstance(t, ast.Name) else None
+
+
+def _roles(fn):
+    """Local names by what they hold (no reliance on the names themselves):
+    Y / DYBAR   targets of the mechanistic model's simulate()
+    EPS         bound from the tail `parameters[self._end_bottom:]`
+    SIGMA       bound from `self._sigma` or from the block ending at
+                `self._n_top`
+    DS_Y        second result of the filter's compute_sensitivities
+    DPSI        the value handed to the population model as dlogp_dpsi
+    SCORE/SENS  the returned pair"""
+    r = {}
+    for n in ast.walk(fn):
+        if isinstance(n, ast.Assign) and len(n.targets) == 1:
+            t, v = n.targets[0], n.value
+            calls = [c for c in ast.walk(v) if isinstance(c, ast.Call)
+                     and isinstance(c.func, ast.Attribute)]
+            sim = [c for c in calls if c.func.attr == 'simulate'
+                   and 'mechanistic_model' in U(c.func.value)]
+            if sim and v is sim[0]:
+                if isinstance(t, ast.Tuple) and len(t.elts) == 2:
+                    r.setdefault('Y', _base(t.elts[0]))
+                    r.setdefault('DYBAR', _base(t.elts[1]))
+                else:
+                    r.setdefault('Y', _base(t))
+            flt = [c for c in calls if c.func.attr == 'compute_sensitivities'
+                   and '_filter' in U(c.func.value)]
+            if flt and v is flt[0] and isinstance(t, ast.Tuple) and len(
+                    t.elts) == 2:
+                r.setdefault('DS_Y', _base(t.elts[1]))
+                r.setdefault('FILTER_S', _base(t.elts[0]))
+            if isinstance(t, ast.Name):
+                txt = U(v).replace(' ', '')
+                if 'parameters[self._end_bottom:]' in txt:
+                    r.setdefault('EPS', t.id)
+                sig_blk = any(
+                    isinstance(x, ast.Subscript) and U(x.value) ==
+                    'parameters' and isinstance(x.slice, ast.Slice)
+                    and x.slice.lower is not None
+                    and x.slice.upper is not None
+                    and U(x.slice.upper) == 'self._n_top'
+                    for x in ast.walk(v))
+                if txt == 'self._sigma' or sig_blk:
+                    r.setdefault('SIGMA', t.id)
+        if isinstance(n, ast.Call) and isinstance(n.func, ast.Attribute) \
+                and n.func.attr == 'compute_sensitivities' \
+                and '_population_model' in U(n.func.value):
+            for k in n.keywords:
+                if k.arg == 'dlogp_dpsi' and isinstance(k.value, ast.Name):
+                    r.setdefault('DPSI', k.value.id)
+    # plain copies carry the role (`sigma = _h1_sigma` after inlining)
+    by_name = {v: k for k, v in r.items() if v}
+    copies = {}
+    for _ in range(3):
+        for n in ast.walk(fn):
+            if isinstance(n, ast.Assign) and len(n.targets) == 1:
+                t, v = n.targets[0], n.value
+                pairs = []
+                if isinstance(t, ast.Name) and isinstance(v, ast.Name):
+                    pairs = [(t.id, v.id)]
+                elif isinstance(t, ast.Tuple) and isinstance(v, ast.Tuple) \
+                        and len(t.elts) == len(v.elts):
+                    pairs = [(a.id, b.id) for a, b in zip(t.elts, v.elts)
+                             if isinstance(a, ast.Name)
+                             and isinstance(b, ast.Name)]
+                for a, b in pairs:
+                    n_defs = sum(1 for x in ast.walk(fn)
+                                 if isinstance(x, ast.Name) and x.id == a
+                                 and isinstance(x.ctx, ast.Store))
+                    if n_defs != 1:
+                        continue        # only single-assignment copies
+                    if b in by_name and a not in by_name:
+                        by_name[a] = by_name[b]
+                        copies[a] = by_name[b]
+    r['_copies'] = copies
+    rets = [x for x in fn.body if isinstance(x, ast.Return)]
+    if rets and isinstance(rets[-1].value, ast.Tuple) and len(
+            rets[-1].value.elts) == 2:
+        a, b = rets[-1].value.elts
+        r['SCORE'], r['SENS'] = _base(a), _base(b)
+    elif rets and isinstance(rets[-1].value, ast.Name):
+        r['SCORE'] = rets[-1].value.id
+    return r
+
+
+def _target_block(t, roles):
+    """'EPS' | 'SIGMA' | None for a store into the returned gradient."""
     if isinstance(t, ast.Subscript) and isinstance(t.value, ast.Name) \
-            and t.value.id == 'sensitivities' and isinstance(
+            and t.value.id == roles.get('SENS') and isinstance(
                 t.slice, ast.Slice):
         lo = U(t.slice.lower) if t.slice.lower is not None else ''
         hi = U(t.slice.upper) if t.slice.upper is not None else ''
         if lo == 'self._end_bottom' and not hi:
             return 'EPS'
-        if lo == 'n_pop' and hi == 'self._n_top':
+        if lo and lo != '0' and hi == 'self._n_top':
             return 'SIGMA'
     return None
 
@@ -50,9 +139,17 @@ def _walk(fn, log_scale, repo):
     score terms mentioning eps."""
     lf = _NoiseLifter(repo, CLS, flags={
         'self._error_on_log_scale': log_scale, 'self._sigma is None': True})
-    env = {'y': YB, 'sigma': SIG, 'epsilon': EPS, 'ds_y': D,
-           'dybar_dpsi': M, 'self._n_samples': sp.Symbol('n_s'),
+    roles = _roles(fn)
+    ry, rscore, rdpsi = roles.get('Y'), roles.get('SCORE'), roles.get('DPSI')
+    env = {'self._n_samples': sp.Symbol('n_s'),
            'self._n_observables': sp.Symbol('n_o')}
+    symof = {'Y': YB, 'SIGMA': SIG, 'EPS': EPS, 'DS_Y': D, 'DYBAR': M}
+    for role, sym_ in symof.items():
+        if roles.get(role):
+            env[roles[role]] = sym_
+    for nm, role in roles.get('_copies', {}).items():
+        if role in symof and role != 'Y':
+            env[nm] = symof[role]
     out = dict(updates={'EPS': [], 'SIGMA': []}, ds_dpsi=None,
                score=[], applied=False, nodes={})
 
@@ -70,7 +167,7 @@ def _walk(fn, log_scale, repo):
             if isinstance(s, (ast.For, ast.While, ast.Try, ast.With)):
                 continue
             if isinstance(s, ast.AugAssign):
-                blk = _target_block(s.target)
+                blk = _target_block(s.target, roles)
                 if blk:
                     try:
                         v = lf.ev(s.value, env, fn, 0, CLS)
@@ -79,28 +176,41 @@ def _walk(fn, log_scale, repo):
                             norm_stmt(s)[:60], e))
                     out['updates'][blk].append((s, v, s.op))
                     continue
-                if isinstance(s.target, ast.Name) and s.target.id == 'y':
+                if isinstance(s.target, ast.Name) and s.target.id == ry:
                     v = lf.ev(s.value, env, fn, 0, CLS)
-                    env['y'] = lf._binop(s.op, env['y'], v)
+                    env[ry] = lf._binop(s.op, env[ry], v)
                     out['applied'] = True
                     out['nodes']['apply'] = s
                     continue
-                if isinstance(s.target, ast.Name) and s.target.id == 'score' \
-                        and 'epsilon' in U(s.value):
+                if isinstance(s.target, ast.Name) and s.target.id == rscore \
+                        and roles.get('EPS') and roles['EPS'] in {
+                            x.id for x in ast.walk(s.value)
+                            if isinstance(x, ast.Name)}:
                     out['score'].append((s, lf.ev(s.value, env, fn, 0, CLS)))
                 continue
             if isinstance(s, ast.Assign) and len(s.targets) == 1:
                 t = s.targets[0]
-                blk = _target_block(t)
+                blk = _target_block(t, roles)
                 if blk:
                     v = lf.ev(s.value, env, fn, 0, CLS)
                     out['updates'][blk].append((s, v, None))
                     continue
-                if isinstance(t, ast.Name) and t.id == 'ds_dpsi':
+                if isinstance(t, ast.Name) and t.id == rdpsi:
                     out['ds_dpsi'] = (s, lf.ev(s.value, env, fn, 0, CLS))
                     continue
-                if isinstance(t, ast.Name) and t.id == 'y' and out['applied']:
-                    env['y'] = lf.ev(s.value, env, fn, 0, CLS)
+                if isinstance(t, ast.Name) and t.id == ry and out['applied']:
+                    env[ry] = lf.ev(s.value, env, fn, 0, CLS)
+                    continue
+                if isinstance(t, ast.Name) and t.id == ry and not \
+                        out['applied'] and isinstance(
+                            s.value, ast.BinOp):
+                    # `y = y * exp(..)` / `y = y + ..` (not in-place)
+                    try:
+                        env[ry] = lf.ev(s.value, env, fn, 0, CLS)
+                        out['applied'] = True
+                        out['nodes']['apply'] = s
+                    except Unsupported:
+                        pass
                     continue
                 if isinstance(t, ast.Name) and t.id not in protected:
                     # temporaries (chain-rule factors defined per branch)
@@ -110,7 +220,7 @@ def _walk(fn, log_scale, repo):
                         env.pop(t.id, None)
     protected = set(env)
     visit(fn.body)
-    out['y'] = env['y']
+    out['y'] = env.get(ry, YB)
     return out
 
 
